@@ -388,7 +388,7 @@ def replay_payload(prog, data, files, ref, real, seed, note=""):
 def run(tier, seed, replay=None):
     rep = C.Report(PID, "other", tier, seed)
     t0 = time.time()
-    info, problems = C.prove(PID, ["HexVerif.X.Examples"])
+    info, problems = C.prove(PID, ["HexVerif.X.Examples", "HexVerif.Properties.C01", "HexVerif.Lemmas.XcmpIAm", "HexVerif.Lemmas.XcmpExpr", "HexVerif.Lemmas.XcmpStage3"])
     h = C.build_harness("h_xcmp", extra_srcs=["hex.cpp"])
     drv = C.driver_exe("xsemdriver")
 
@@ -430,7 +430,9 @@ def run(tier, seed, replay=None):
     progs = []
     for i in range(nprog):
         size = [0.5, 1.0, 1.0, 1.6][i % 4] if i % 25 else 3.0
-        if i % 4 == 1:
+        if i % 8 == 5:
+            prog, f = G.logic_program(C.Rng(r.next()))           # and/or with one constant operand and an impure one
+        elif i % 4 == 1:
             prog, f = G.callshape_program(C.Rng(r.next()))       # calling-convention boundary stream
         else:
             prog, f = G.generate(C.Rng(r.next()), size, loose=(i % 7 == 3))
@@ -532,6 +534,24 @@ def run(tier, seed, replay=None):
     if problems:
         rep.violation("proof", {"broken": problems}, no_input=not uniq)
 
+    # compiler model (Xcmp/*.lean) vs the real xcmp, stage by stage and byte for byte
+    model_corr = {}
+    try:
+        import subprocess, sys as _sys
+        mr = subprocess.run([_sys.executable, os.path.join(C.ROOT, "runner", "c01model.py"), "--tier", tier],
+                            capture_output=True, text=True, timeout=3000,
+                            env=dict(os.environ, VERIF_SEED=str(seed)))
+        summ = os.path.join(C.ROOT, "evidence", "C01model.json")
+        if os.path.exists(summ):
+            model_corr = json.load(open(summ))
+        model_corr["exit"] = mr.returncode
+        model_corr["tail"] = mr.stdout.strip().splitlines()[-1:] if mr.stdout else []
+        if mr.returncode != 0:
+            rep.violation("model-correspondence", {"broken": "Xcmp compiler model vs real xcmp differ (runner/c01model.py)",
+                                                   "detail": (mr.stdout + mr.stderr)[-3000:]}, no_input=not uniq)
+    except Exception as e:   # pragma: no cover
+        rep.violation("model-correspondence", {"broken": "c01model.py could not run", "detail": str(e)}, no_input=not uniq)
+
     nprog_def = len({G.to_sexp(p) for (p, d, f), (ref, real) in zip(cases, results) if ref.startswith("ok ")})
     sample_i = next((i for i, (ref, _) in enumerate(results) if ref.startswith("ok ")), 0)
     rep.coverage.update({
@@ -552,6 +572,7 @@ def run(tier, seed, replay=None):
         "known_finding_programs": sum(known.values()),
         "shrunk_witnesses": [{"source": s, "reference": v[3], "implementation": v[4]} for s, v in list(uniq.items())[:10]],
         "corpus_checked": len(clines), "corpus_cases": ncorpus, "corpus_bad": [f for f, _ in corpus_bad],
+        "compiler_model_correspondence": model_corr,
         "lean": info, "fuel": FUEL, "max_cycles": MAXCYCLES, "run_wall_s": round(t_run, 1),
         "traces_validated_against_impl": ndef - len(mism),
     })
